@@ -645,3 +645,57 @@ func TestZwRejected(t *testing.T) {
 		})
 	}
 }
+
+func sortTestSpecs(name string) []fnSpec {
+	return []fnSpec{{dir: "pos7", file: "pos7.go", recv: "Sorter", name: name, lean: "rank", plainDo: true,
+		round2: true, round3: true, round5: true, round6: true, round7: true,
+		views:       map[string]string{"x": "e.seen f.vals.alloc f.vals.slice f.vals.slice.isNil ks"},
+		mut:         map[string]string{"x": "ks"},
+		callOracles: map[string]string{"sort.Sort": "ks vs[:len(ks)] =ks"}}}
+}
+
+// TestSortOracle: the constructs of zwsort.go (task 3 of work package gen7).
+func TestSortOracle(t *testing.T) {
+	withWhitelist(t, []string{""}, sortTestSpecs("Rank"), func(out map[string]string, errs []error) {
+		for _, e := range errs {
+			t.Errorf("unexpected failure: %v", e)
+		}
+		src := out["Funcs.lean"]
+		for _, want := range []string{
+			// the views (unexported fields of an anonymous struct included), then the call oracle
+			"def rank (x_e_seen : List (Key × Int)) (x_f_vals_alloc : Array (Int)) (x_f_vals_slice : Array (Int)) (x_f_vals_slice_isNil : Bool) (x_ks : Array (Key)) (sort_Sort : Array (Key) → Array (Int) → Array (Key)) : Option (Array (Key)) := do",
+			// the nil-ness travels with the local
+			"  let mut vs : Array (Int) := x_f_vals_slice\n  let mut vs_isNil : Bool := x_f_vals_slice_isNil\n  if vs_isNil then\n    vs := x_f_vals_alloc\n    vs_isNil := false",
+			"    vs := (Array.replicate (Int.ofNat x_ks.size).toNat (0 : Int))\n    vs_isNil := false",
+			// the range loop over the aliased field, the element write into the aliased local (index guard), the map read
+			"  let mut i : Int := 0\n  for k in x_ks do\n    if !(decide ((0 : Int) ≤ i) && decide (i < Int.ofNat vs.size)) then none\n    vs := vs.setIfInBounds i.toNat ((mapGet x_e_seen k).getD (0 : Int))\n    i := i + 1",
+			// the oracle: values in, the new value of the aliased field out
+			"  x_ks := (sort_Sort x_ks (vs.extract 0 x_ks.size))\n  return x_ks",
+		} {
+			if !strings.Contains(src, want) {
+				t.Errorf("generated source lacks:\n%s", want)
+			}
+		}
+		if t.Failed() {
+			t.Logf("generated:\n%s", src)
+		}
+	})
+}
+
+// TestSortOracleRejected: the unsound neighbours are refused loudly.
+func TestSortOracleRejected(t *testing.T) {
+	for _, c := range []struct{ name, msg string }{
+		{"BadAlias", "assignment to a slice that a struct of slices aliases"},
+		{"BadRange", "the body of a range loop assigns the slice ranged over"},
+		{"BadNil", "the nil-ness of the value assigned to vs is not known"},
+	} {
+		withWhitelist(t, []string{""}, sortTestSpecs(c.name), func(out map[string]string, errs []error) {
+			if len(errs) != 1 || !strings.Contains(errs[0].Error(), c.msg) {
+				t.Errorf("%s: expected one failure mentioning %q, got %v", c.name, c.msg, errs)
+			}
+			if _, written := out["Funcs.lean"]; written {
+				t.Errorf("%s: a group with a failed function must not be written", c.name)
+			}
+		})
+	}
+}
